@@ -157,6 +157,31 @@ T2 = {   # 2D: (pdf fexpr, marginal cdf x, marginal cdf y, box, quadrant split p
     "g2": ("exp neg + / * x x " + C(2) + " / * y y " + C(0.5), Phi, lambda y: Phi(y / 0.5), None, (0.0, 0.0), (0.25, 0.25, 0.25, 0.25)),
     "g2box": ("exp neg + / * x x " + C(2) + " / * y y " + C(0.5), trunc_gauss_cdf(-1.0, 2.0), lambda y: trunc_gauss_cdf(-4.0, 2.0)(y / 0.5), (-1.0, 2.0, -2.0, 1.0), (0.0, 0.0), None),
 }
+# densities that vanish EXACTLY (in double precision) on a part of the requested domain: support smaller than the domain
+# (indicator factors) or a narrow peak whose tails underflow.  The chain starts uniformly in the domain, i.e. mostly at a point of zero density.
+def fx_box1(a, b): return "* step - x " + C(a) + " step - " + C(b) + " x"
+def fx_peak1(m, s): return "exp neg / * - x " + C(m) + " - x " + C(m) + " " + C(2.0 * s * s)
+def fx_box2(a, b, c, d): return "* " + fx_box1(a, b) + " * step - y " + C(c) + " step - " + C(d) + " y"
+def fx_peak2(mx, sx, my, sy): return "exp neg + / * - x " + C(mx) + " - x " + C(mx) + " " + C(2.0 * sx * sx) + " / * - y " + C(my) + " - y " + C(my) + " " + C(2.0 * sy * sy)
+def lin_cdf(a, b): return lambda x: min(1.0, max(0.0, (x - a) / (b - a)))
+T1["farpeak"] = (fx_peak1(30.0, 0.25), lambda x: Phi((x - 30.0) / 0.25), (0.0, 32.0))          # exp underflows to 0.0 for x < 20.3
+T1["boxin"] = (fx_box1(0.6, 0.9), lin_cdf(0.6, 0.9), (0.0, 1.0))
+T1["nearpeak"] = (fx_peak1(3.0, 0.05), lambda x: Phi((x - 3.0) / 0.05), None)                     # unbounded; zero density for |x - 3| > 1.94
+T2["farpeak2"] = (fx_peak2(30.0, 0.25, 1.0, 0.25), lambda x: Phi((x - 30.0) / 0.25), lambda y: Phi((y - 1.0) / 0.25), (0.0, 32.0, -1.0, 3.0), (30.0, 1.0), (0.25, 0.25, 0.25, 0.25))
+T2["box2in"] = (fx_box2(0.6, 0.9, 0.1, 0.5), lin_cdf(0.6, 0.9), lin_cdf(0.1, 0.5), (0.0, 1.0, 0.0, 1.0), (0.75, 0.3), (0.25, 0.25, 0.25, 0.25))
+
+
+def erfinv(p):
+    """inverse error function for |p| < 1 (Winitzki's start, Newton on math.erf); used only to locate rejected Metropolis proposals"""
+    a = 0.147; ln = math.log(1.0 - p * p); t = 2.0 / (math.pi * a) + ln / 2.0
+    z = math.copysign(math.sqrt(max(0.0, math.sqrt(t * t - ln / a) - t)), p)
+    for _ in range(6):
+        d = 2.0 / math.sqrt(math.pi) * math.exp(-z * z)
+        if d == 0.0: break
+        z -= (math.erf(z) - p) / d
+    return z
+
+
 def _g2box_quadrants():
     px = (Phi(0) - Phi(-1.0)) / (Phi(2.0) - Phi(-1.0)); py = (Phi(0) - Phi(-4.0)) / (Phi(2.0) - Phi(-4.0))
     return (px * py, px * (1 - py), (1 - px) * py, (1 - px) * (1 - py))
@@ -319,6 +344,83 @@ def generate(rng, tier):
         im = imax32(s, th, b)
         cs.append(seq_case(seed(), [f"metro {hx(1.0)} {s} {th} {b} 0 {T1['gauss'][0]}"], 1 + 2 * im + 1, ("metro", "wrap32" if th else "thinning0")))
         cs.append(seq_case(seed(), [f"metro2 {hx(1.0)} {hx(0.5)} {s} {th} {b} 0 {T2['g2'][0]}"], 2 + 3 * im + 1, ("metro2", "wrap32" if th else "thinning0")))
+    # H. target densities that are exactly 0.0 on a part of the bounded domain (support inside the domain, indicator factors, underflowing narrow
+    #    peaks, densities vanishing at the domain edge), on random generator states and on PRESCRIBED streams: start deviates 0 / 1-2^-53 (domain
+    #    corners), proposal deviates in the far tails (candidates beyond the domain edge) and accept deviates exactly 0.0, 2^-64, 1-2^-53.
+    def ztarget1():
+        k = rng.choice(["boxin", "boxin", "expoin", "farpeak", "farpeak", "triin", "edge0"])
+        if k == "boxin":
+            lo = rng.choice([0.0, -2.0, 10.0, -1e3]); w = rng.choice([1.0, 3.0, 100.0]); a = lo + w * rng.choice([0.25, 0.5, 0.6]); b = lo + w * rng.choice([0.75, 0.9, 1.0])
+            return fx_box1(a, b), [lo, lo + w], w
+        if k == "expoin":
+            lo = -rng.choice([0.5, 3.0, 20.0]); return T1["expo"][0], [lo, 8.0], 8.0 - lo
+        if k == "farpeak":
+            s = rng.choice([0.05, 0.25, 1.0, 30.0]); m = rng.choice([0.0, 30.0, 90.0, -500.0]); L = rng.choice([45.0, 80.0, 300.0]) * s
+            return (fx_peak1(m, s), [m - L, m + 10.0 * s], L) if rng.random() < 0.7 else (fx_peak1(m, s), [m - 10.0 * s, m + L], L)
+        if k == "triin": return "* * step x step - " + C(1) + " x * " + C(2) + " x", [-1.0, 2.0], 3.0
+        nm = rng.choice(["tri", "sin"]); return T1[nm][0], list(T1[nm][2]), T1[nm][2][1] - T1[nm][2][0]      # density 0 exactly at the lower domain edge
+    def ztarget2():
+        k = rng.choice(["box2in", "box2in", "farpeak2", "farpeak2", "xpyin"])
+        if k == "box2in":
+            lo = rng.choice([0.0, -2.0, 10.0]); w = rng.choice([1.0, 3.0, 100.0]); lo2 = rng.choice([0.0, -5.0]); w2 = rng.choice([1.0, 8.0])
+            a = lo + w * rng.choice([0.25, 0.5, 0.6]); b = lo + w * rng.choice([0.75, 0.9, 1.0]); c = lo2 + w2 * rng.choice([0.0, 0.1, 0.5]); d = lo2 + w2 * rng.choice([0.6, 1.0])
+            return fx_box2(a, b, c, d), [lo, lo + w, lo2, lo2 + w2], (w, w2)
+        if k == "farpeak2":
+            s = rng.choice([0.05, 0.25, 1.0]); m = rng.choice([0.0, 30.0, 90.0]); L = rng.choice([45.0, 80.0]) * s; my = rng.choice([0.0, 1.0]); h = rng.choice([4.0, 50.0]) * s
+            return fx_peak2(m, s, my, s), [m - L, m + 10.0 * s, my - h, my + h], (L, 2 * h)
+        return "* * * step x step - " + C(1) + " x * step y step - " + C(1) + " y + x y", [-1.0, 2.0, -1.0, 2.0], (3.0, 3.0)
+    def zsigma(w): return w * rng.choice([0.02, 0.1, 0.3, 1.0, 3.0])
+    def ztriple():
+        if rng.random() < 0.7: return rng.choice([1, 2, 5, rng.randint(1, 25)]), 1, rng.choice([0, 0, 0, 1, 3])     # thinning 1, burn-in 0: the whole chain is returned
+        return rng.randint(1, 8), rng.randint(1, 3), rng.randint(0, 4)
+    TINY_RAWS = [(0, 0), (0, 0), (0, 0), (1, 0), (0, 1), (M, M), (2048, 0)]
+    def craft(dim, im, pzero):
+        """raw outputs for one Metropolis call: start deviates, then per step proposal deviate(s) and the accept deviate"""
+        def start(): return rng.choice([(0, 0), (1, 0), (M, M), raws_for(0.5), raws_for(rng.random()), raws_for(rng.random()), raws_for(rng.choice([0.01, 0.1, 0.9, 0.99]))])
+        def prop(): return raws_for(rng.choice([rng.random(), rng.random(), 0.5, 0.001, 0.999, 0.02, 0.98, 0.2, 0.8, 1e-6, 1.0 - 1e-6, 2.0 ** -60]))
+        def acc():
+            if rng.random() < pzero: return (0, 0)
+            return rng.choice(TINY_RAWS + [raws_for(0.5), raws_for(rng.random()), raws_for(rng.random()), raws_for(rng.random())])
+        out = []
+        for _ in range(dim): out += start()
+        for _ in range(im):
+            for _ in range(dim): out += prop()
+            out += acc()
+        return out
+    for _ in range(R(260, 4000)):
+        d2 = rng.random() < 0.5
+        s, th, b = ztriple(); im = imax32(s, th, b)
+        if d2:
+            fx, dom, (w1, w2) = ztarget2() if rng.random() < 0.8 else (T2["g2box"][0], list(T2["g2box"][3]), (3.0, 3.0))
+            o = f"metro2 {hx(zsigma(w1))} {hx(zsigma(w2))} {s} {th} {b} {flist(dom)} {fx}"; need = 2 + 3 * im
+        else:
+            fx, dom, w = ztarget1() if rng.random() < 0.8 else (T1["tgauss"][0], list(T1["tgauss"][2]), 3.0)
+            o = f"metro {hx(zsigma(w))} {s} {th} {b} {flist(dom)} {fx}"; need = 1 + 2 * im
+        if rng.random() < 0.45:
+            cs.append(seq_case(seed(), [o], need + 2, (o.split()[0], "zero-density", "random-state")))
+        else:
+            cs.append(seq_case(rng.randrange(2 ** 32), [o], need + 2, (o.split()[0], "zero-density", "crafted-stream"), state_raws=craft(2 if d2 else 1, im, rng.choice([0.2, 0.5, 1.0]))))
+    # the same boundary deviates (exactly 0.0, 2^-64, 1-2^-53) at EVERY position of the stream, for every sampler (rejection: y = 0 on a point of zero density)
+    def rej_eff(fx, dom, top):
+        e, _ = fparse(fx.split(), 0); d2 = len(dom) == 4; acc = 0.0
+        for _k in range(300):
+            x = dom[0] + rng.random() * (dom[1] - dom[0]); y = dom[2] + rng.random() * (dom[3] - dom[2]) if d2 else 0.0
+            v = feval(e, x, y); acc += v if v == v and v > 0 else 0.0
+        return acc / 300 / top
+    for _ in range(R(120, 1500)):
+        name, f = rng.choice(singles)
+        o = None
+        if name == "poisson": o, n = f(40.0)
+        elif name in ("rej", "rej2") and rng.random() < 0.6:
+            fx, dom, _w = ztarget1() if name == "rej" else ztarget2()
+            top = rng.choice([1.0, 2.0, 2.5]); eff = rej_eff(fx, dom, top); per = 2 if name == "rej" else 3
+            if eff >= 0.03: o, n = f"{name} {' '.join(hx(v) for v in dom)} {hx(top)} {fx}", int(per * 40 / eff) + 10
+        if o is None: o, n = f(kind=rng.choice(["tight", "loose"])) if name in ("rej", "rej2") else f()
+        pz = rng.choice([0.1, 0.3, 0.6])
+        raws = []
+        for _k in range(min(n, 300)):
+            raws += list(rng.choice(TINY_RAWS) if rng.random() < pz else raws_for(rng.random()))
+        cs.append(seq_case(rng.randrange(2 ** 32), [o], n + 2, ("edge-stream", name), state_raws=raws))
     # F. (sample, thinning, burn_in) grid on 0..200, thinning >= 1, 1D/2D, bounded/unbounded: count, consumption, domain, determinism
     if big:
         gs = [0, 1, 2, 3, 5, 10, 37, 100, 200]; gt = [1, 2, 3, 4, 5, 7, 10, 16, 50, 99, 100, 200]; gb = [0, 1, 2, 3, 4, 5, 6, 7, 9, 10, 11, 15, 16, 17, 49, 50, 51, 99, 100, 101, 150, 199, 200]
@@ -356,6 +458,17 @@ def generate(rng, tier):
         for nm, s1, s2 in (("g2", 2.0, 1.0), ("xpy", 0.5, 0.5), ("g2box", 1.5, 1.0)):
             fx, _, _, box, _, _ = T2[nm]; L.append(f"law metro2 {nm} {sd} {n1} {hx(s1)} {hx(s2)} 8 500 {flist(list(box) if box else [])} {fx}")
         for l in L: cs.append(Case(l, ("law", l.split()[1])))
+    # targets whose density is exactly 0.0 where the chain starts (support inside the domain; narrow peak with underflowing tails): the chain has to
+    # walk through the zero-density region to the support.  Short chains, several fixed seeds (the start point decides whether the region is hit).
+    for sd in ([101, 102, 103, 104, 105, 106] if not big else list(range(101, 125))):
+        L = []
+        n2 = 1000 if not big else 3000
+        L.append(f"law metro farpeak {sd} {n2} {hx(0.5)} 20 20000 {flist(list(T1['farpeak'][2]))} {T1['farpeak'][0]}")
+        L.append(f"law metro boxin {sd} {n2} {hx(0.2)} 20 2000 {flist(list(T1['boxin'][2]))} {T1['boxin'][0]}")
+        L.append(f"law metro nearpeak {sd} {n2} {hx(1.0)} 40 30000 0 {T1['nearpeak'][0]}")
+        L.append(f"law metro2 farpeak2 {sd} {n2} {hx(0.5)} {hx(0.4)} 20 20000 {flist(list(T2['farpeak2'][3]))} {T2['farpeak2'][0]}")
+        L.append(f"law metro2 box2in {sd} {n2} {hx(0.2)} {hx(0.2)} 20 2000 {flist(list(T2['box2in'][3]))} {T2['box2in'][0]}")
+        for l in L: cs.append(Case(l, ("law", l.split()[1], "zero-density-start")))
     return cs
 
 
@@ -630,7 +743,70 @@ def replay_seq(us, ops, v):
                 if d2: bad = [(x, y) for x, y in zip(pts[0::2], pts[1::2]) if not (dom[0] <= x <= dom[1] and dom[2] <= y <= dom[3])]
                 else: bad = [x for x in pts if not (dom[0] <= x <= dom[1])]
                 if bad: out.append((name + ":domain", f"{name}: sample {bad[0]} outside the bounded domain {dom}"))
+            if thin == 1 and burn + sample < 2 ** 32 and cnt == sample and cnt > 0:
+                out += metro_steps(name, d2, us, k - need, (s1, s2) if d2 else (s1,), burn, dom, e, pts)
     return out, k, False
+
+
+def metro_steps(name, d2, us, k0, sigmas, burn, dom, e, pts):
+    """Acceptance rule on a fully visible chain (thinning 1): the returned points are the chain states x_burn, x_burn+1, ...
+    A step that moved shows its candidate: the accept deviate u must satisfy u < min(1, pdf(cand)/pdf(x)) (std::min(1.0, r) is 1.0 for a NaN r).
+    A step that stayed hides its candidate; it is located from the proposal deviate (Inv_Erf is accurate to 1e-4 in the standardised variable)
+    and judged only when it lies clearly inside the domain and the acceptance probability is clearly above u."""
+    out = []; dim = 2 if d2 else 1; per = dim + 1; base = k0 + dim
+    P = (lambda i: (pts[2 * i], pts[2 * i + 1])) if d2 else (lambda i: (pts[i],))
+    def pdf(p): return feval(e, p[0], p[1]) if d2 else feval(e, p[0])
+    def ratio(a, b):
+        if b == 0.0: return math.nan if (a == 0.0 or a != a) else math.copysign(math.inf, a) * math.copysign(1.0, b)
+        return a / b
+    def amin(r): return r if r < 1.0 else 1.0          # std::min(1.0, r)
+    n = len(pts) // dim
+    for j in range(n):
+        cur = P(j)
+        if j == 0:
+            if burn != 0 or not dom: continue
+            prev = tuple(us[k0 + c] * (dom[2 * c + 1] - dom[2 * c]) + dom[2 * c] for c in range(dim))
+        else: prev = P(j - 1)
+        i = burn + j; u = us[base + per * i + dim]
+        fp = pdf(prev)
+        if cur != prev:
+            if any(x != x for x in cur): continue
+            a = amin(ratio(pdf(cur), fp))
+            if not (u < a) and not (abs(u - a) <= 1e-12 * abs(a)) :
+                out.append((name + ":accept-rule", f"{name}: step {i} moved from {prev} to {cur} although the accept deviate {u!r} is not below min(1, pdf ratio) = {a!r}"))
+                break
+            continue
+        # stayed
+        if any(not (s > 0 and math.isfinite(s)) for s in sigmas) or not (fp == fp) or fp < 0: continue
+        cand = []; dl = []; ok = True
+        for c in range(dim):
+            pz = 2.0 * us[base + per * i + c] - 1.0
+            if not (abs(pz) <= 1.0 - 2e-10): ok = False; break
+            cand.append(prev[c] + SQ2 * sigmas[c] * erfinv(pz)); dl.append(SQ2 * sigmas[c] * 2e-4 + 4e-16 * (abs(prev[c]) + abs(cand[-1])))
+        if not ok: continue
+        if dom:
+            if any(cand[c] + dl[c] < dom[2 * c] or cand[c] - dl[c] > dom[2 * c + 1] for c in range(dim)): continue            # clearly outside: acceptance 0
+            if not all(dom[2 * c] <= cand[c] - dl[c] and cand[c] + dl[c] <= dom[2 * c + 1] for c in range(dim)): continue       # too close to an edge to tell
+        if any(cand[c] == prev[c] for c in range(dim)): continue
+        probe = [tuple(cand[c] + sg[c] * dl[c] for c in range(dim)) for sg in ([(0,), (-1,), (1,)] if dim == 1 else [(0, 0), (-1, -1), (-1, 1), (1, -1), (1, 1)])]
+        fs = [pdf(q) for q in probe]
+        if fp == 0.0:
+            # min(1, f/0): +inf or NaN, i.e. 1.0 for every candidate with f >= 0 or f NaN
+            if any(f < 0 for f in fs): continue
+            if u < 1.0:
+                out.append((name + ":accept-rule", f"{name}: step {i} stayed at {prev}, a point of zero density, although the candidate ~{tuple(cand)} lies inside the domain: "
+                            f"min(1, pdf(cand)/0) = 1 > accept deviate {u!r} (a chain that does not leave the zero-density region cannot reach the target law)"))
+                break
+            continue
+        if not all(f == f and math.isfinite(f) and f > 0 for f in fs) or not math.isfinite(fp): continue
+        rs = [f / fp for f in fs]
+        if max(rs) > 1.1 * min(rs): continue
+        a = amin(min(rs))
+        if u < 0.8 * a:
+            out.append((name + ":accept-rule", f"{name}: step {i} stayed at {prev} although the candidate ~{tuple(cand)} lies inside the domain and the accept deviate {u!r} "
+                        f"is below min(1, pdf ratio) ~ {a!r}"))
+            break
+    return out
 
 
 def predicates(c, io):
